@@ -62,8 +62,16 @@ def expand(ps):
                 if c.get("coupling"):
                     cp = c["coupling"]
                     on, ntn, nn = f"cpl_op{k}", f"cpl_nt{k}", f"cpl{k}"
-                    spec["ops"][on] = {"vars": [["pre", "input", 0.0], ["post", "input", 0.0], ["cval", "alg", 0.0]],
-                                       "eqs": [["cval", False, cp["expr"], 0]], "out": "cval"}
+                    if cp.get("dynamic"):
+                        # dynamic coupling: every (target, source) pair has a state variable of its own
+                        dy = cp["dynamic"]
+                        rhs = ["bin", "/", ["bin", "-", ["bin", "*", ["var", "g_c"], cp["expr"]], ["var", "cval"]], ["var", "tau_c"]]
+                        spec["ops"][on] = {"vars": [["pre", "input", 0.0], ["post", "input", 0.0], ["cval", "state", 0.0],
+                                                    ["g_c", "const", dy["g_c"]], ["tau_c", "const", dy["tau_c"]]],
+                                           "eqs": [["cval", True, rhs, 0]], "out": "cval"}
+                    else:
+                        spec["ops"][on] = {"vars": [["pre", "input", 0.0], ["post", "input", 0.0], ["cval", "alg", 0.0]],
+                                           "eqs": [["cval", False, cp["expr"], 0]], "out": "cval"}
                     spec["ntypes"][ntn] = {"ops": [on], "ov": {}}
                     spec["nodes"].append([nn, ntn])
                     po, pv = cp["post_var"].split("/")
@@ -94,8 +102,15 @@ def build_population_circuit(ps):
         kw = {}
         if c.get("coupling"):
             cp = c["coupling"]
-            eop = OperatorTemplate(name=f"cpl_op{k}", path=None, equations=[f"cval = {E.render(cp['expr'])}"],
-                                   variables={"cval": "output(0.0)", "pre": "input(0.0)", "post": "input(0.0)"})
+            if cp.get("dynamic"):
+                dy = cp["dynamic"]
+                eop = OperatorTemplate(name=f"cpl_op{k}", path=None,
+                                       equations=[f"cval' = (g_c*({E.render(cp['expr'])}) - cval)/tau_c"],
+                                       variables={"cval": "output(0.0)", "pre": "input(0.0)", "post": "input(0.0)",
+                                                  "g_c": float(dy["g_c"]), "tau_c": float(dy["tau_c"])})
+            else:
+                eop = OperatorTemplate(name=f"cpl_op{k}", path=None, equations=[f"cval = {E.render(cp['expr'])}"],
+                                       variables={"cval": "output(0.0)", "pre": "input(0.0)", "post": "input(0.0)"})
             kw["edge"] = EdgeTemplate(name=f"cpl_edge{k}", path=None, operators=[eop])
             tp_ = c["t"].split("/")[0]
             kw["edge_var_map"] = {"pre": "source", "post": f"{tp_}/{cp['post_var']}"}
@@ -186,6 +201,9 @@ def pop_case(draw):
                 ["bin", "*", ["var", "pre"], ["call", "tanh", ["var", "post"]]],
                 ["bin", "-", ["var", "pre"], ["bin", "*", ["num", 0.5], ["var", "post"]]]]))
             c["coupling"] = {"expr": expr, "post_var": f"{to}/{pv}"}
+            if draw(st.integers(0, 2)) == 0:
+                c["coupling"]["dynamic"] = {"g_c": draw(st.sampled_from([1.0, 1.5, 0.7])),
+                                            "tau_c": draw(st.sampled_from([0.5, 1.0, 2.0]))}
         conns.append(c)
     if not conns:
         conns.append(c)
@@ -202,7 +220,7 @@ class PopArm(Arm):
     min_per_shard = 20
     required_labels = ("matrix", "scalar_weight", "non_square", "heterogeneous_params", "coupling_edge", "delay",
                        "delay+spread", "two_populations", "second_translation:run", "second_translation:get_run_func",
-                       "second_translation:run_in_place")
+                       "second_translation:run_in_place", "dynamic_coupling_edge")
 
     def strategy(self, ctx):
         return pop_case()
@@ -235,6 +253,8 @@ class PopArm(Arm):
                 lab.add("scalar_weight")
             if c.get("coupling"):
                 lab.add("coupling_edge")
+                if c["coupling"].get("dynamic"):
+                    lab.add("dynamic_coupling_edge")
             if isinstance(c["W"], list) and len({x for r in c["W"] for x in r}) == 1 and sum(len(r) for r in c["W"]) > 1:
                 lab.add("uniform_matrix")
             if c.get("d") is not None:
